@@ -290,7 +290,11 @@ impl Check for C08 {
         let (clauses, once): (Vec<Vec<G>>, bool) = match &op {
             G::Conda(cs) => (cs.clone(), false),
             G::Condu(cs) => (cs.clone(), true),
-            G::Onceo(cs) => (vec![vec![G::Conj(cs.iter().flat_map(|c| c.iter().cloned()).collect())]], true),
+            // onceo { g }: decomposable. For onceo { c1, c2 } the operator nests its conjunction
+            // differently from any goal this harness can build separately, and the interleaving
+            // order of a conjunction of multi-answer goals (hence WHICH answer is first) depends on
+            // that nesting; those are left to the reference (when unambiguous).
+            G::Onceo(cs) if cs.len() == 1 && cs[0].len() == 1 => (vec![vec![cs[0][0].clone()]], true),
             _ => (vec![], false),
         };
         if !clauses.is_empty() {
@@ -300,18 +304,21 @@ impl Check for C08 {
                 let mut hb = pre.clone();
                 hb.push(c[0].clone());
                 let hp = prog(hb.clone());
-                let hr = run_query(&hp, &first_cfg);
+                // The head's first answer "in engine order" is the first STATE of the head goal's
+                // own stream (what Solver::trunc sees), so the solver is driven by hand here; going
+                // through the query iterator would interleave reification into the order.
+                let hr = run_states(&hp, &first_cfg, false);
                 if hr.panic.is_some() || hr.budget_exceeded {
                     out.inconclusive.push("head run did not decide".into());
                     return out;
                 }
-                if hr.answers.is_empty() {
+                if hr.finals.is_empty() {
                     continue;
                 }
                 committed = Some(i);
                 let mut eb = if once {
                     let mut b = pre.clone();
-                    b.extend(posts(&hr.answers[0]));
+                    b.extend(posts(&hr.finals[0].answer));
                     b
                 } else {
                     hb
